@@ -152,8 +152,10 @@ class Transport:
         """
         old_timeout = self.operation_timeout
         self.operation_timeout = timeout
-        yield
-        self.operation_timeout = old_timeout
+        try:
+            yield
+        finally:
+            self.operation_timeout = old_timeout
 
     def __del__(self):
         if self._close_session:
